@@ -380,8 +380,20 @@ pub struct SCase {
     pub ops: Vec<SOp>,
 }
 
-fn cost() -> BoxedStrategy<i64> {
-    prop_oneof![12 => -20i64..100, 2 => -(1i64 << 40)..(1i64 << 40), 1 => Just(0i64), 1 => Just(i64::from(i32::MAX)), 1 => Just(-(1i64 << 40))].boxed()
+fn cost(extreme: bool) -> BoxedStrategy<i64> {
+    if extreme {
+        // C20 only: costs near the ends of the i64 range (the exact sums may still fit; where
+        // they do not, nothing is demanded and a panic of the library is not held against it)
+        prop_oneof![
+            12 => -20i64..100,
+            2 => -(1i64 << 40)..(1i64 << 40),
+            1 => Just(0i64),
+            1 => prop::sample::select(vec![i64::MAX - 10, i64::MAX, i64::MAX / 2 + 3, 1i64 << 62, -(1i64 << 62), i64::MIN + 10, i64::MIN / 2 - 3]),
+        ]
+        .boxed()
+    } else {
+        prop_oneof![12 => -20i64..100, 2 => -(1i64 << 40)..(1i64 << 40), 1 => Just(0i64), 1 => Just(i64::from(i32::MAX)), 1 => Just(-(1i64 << 40))].boxed()
+    }
 }
 
 /// "all max costs": small, wide, and the ends of the i64 range (an "unbounded" limit)
@@ -394,7 +406,17 @@ fn max_cost_strategy() -> BoxedStrategy<i64> {
     .boxed()
 }
 
-pub fn scase_strategy(thorough: bool) -> BoxedStrategy<SCase> {
+pub fn scase_strategy(thorough: bool, extreme: bool) -> BoxedStrategy<SCase> {
+    if extreme {
+        // one case in eight draws its costs from the set with values near the ends of the i64
+        // range, and is short (most long sequences of such costs leave the i64 range)
+        return prop_oneof![7 => scase_strategy_with(thorough, false), 1 => scase_strategy_with(false, true)].boxed();
+    }
+    scase_strategy_with(thorough, false)
+}
+
+fn scase_strategy_with(thorough: bool, extreme: bool) -> BoxedStrategy<SCase> {
+    let cost = move || cost(extreme);
     let key = || prop_oneof![10 => 0u64..8, 1 => Just(u64::MAX), 1 => Just(0u64), 1 => any::<u64>()];
     let op = prop_oneof![
         20 => (key(), cost()).prop_map(|(k, c)| SOp::Inc(k, c)),
@@ -408,7 +430,7 @@ pub fn scase_strategy(thorough: bool) -> BoxedStrategy<SCase> {
         6 => (prop::collection::vec((key(), cost()), 0..8), prop_oneof![1 => Just(0u8), 1 => 1u8..40]).prop_map(|(v, slack)| SOp::FillSample(v, slack)),
         8 => cost().prop_map(SOp::RoomLeft),
     ];
-    let n = if thorough { 200 } else { 80 };
+    let n = if extreme { 12 } else if thorough { 200 } else { 80 };
     (
         max_cost_strategy(),
         prop_oneof![8 => 0usize..10, 1 => 10usize..64],
@@ -568,7 +590,7 @@ fn run_sampled_inner(c: &SCase, prop: E7Prop, rep: &mut CaseReport) -> Result<()
             }
         }
         if chk {
-            let sum: i64 = m.values().sum();
+            let sum: i128 = m.values().map(|c| *c as i128).sum();
             let probe = match op {
                 SOp::RoomLeft(cst) => *cst,
                 _ => 0,
@@ -576,7 +598,7 @@ fn run_sampled_inner(c: &SCase, prop: E7Prop, rep: &mut CaseReport) -> Result<()
             let got = s.room_left(probe);
             // exact value in i128; where it does not fit into an i64 there is no right answer
             // and nothing is demanded (the sum of <= 200 costs below 2^40 always fits)
-            let exact = max_cost as i128 - sum as i128 - probe as i128;
+            let exact = max_cost as i128 - sum - probe as i128;
             if s.get_max_cost() != max_cost {
                 return Err(sv(prop, i, "room-left", format!("step {i} {op:?}: get_max_cost() = {}, configured {max_cost}", s.get_max_cost())));
             }
@@ -595,4 +617,91 @@ fn run_sampled_inner(c: &SCase, prop: E7Prop, rep: &mut CaseReport) -> Result<()
     }
     rep.nontrivial = if prop == E7Prop::C20 { reinc_then_check } else { rep.steps >= 10 };
     Ok(())
+}
+
+// ------------------------------------------------------------------ SampledLFU with String keys
+
+const SKEYS: [&str; 6] = ["", "a", "b", "ab", "\0", "a longer key that does not fit a small string"];
+
+/// the key-based API with `String` keys, every call alternately through the owned form
+/// (`&String`) and the borrowed form (`&str`), the empty key included: both forms must name the
+/// same tracked key (C20: "update and remove report exactly whether the key was tracked")
+pub fn run_sampled_str(c: &SCase) -> Option<Violation> {
+    let kh = mk_khs::<String>(match c.kh {
+        KhSpec::Default => KhSpec::Default,
+        other => other,
+    });
+    let mut s: SampledLFU<String, KHS<String>, HS> = SampledLFU::with_samples_and_key_hasher_and_hasher(c.max_cost, c.samples, kh, mk_hs(c.hs));
+    // tracked by hashed key, as the tracker does (a key hasher may map several keys to one)
+    let mut m: BTreeMap<u64, i64> = BTreeMap::new();
+    let r = catch_unwind(AssertUnwindSafe(|| -> Option<Violation> {
+        for (i, op) in c.ops.iter().enumerate() {
+            let (k, cst) = match op {
+                SOp::Inc(k, c) | SOp::IncHashed(k, c) | SOp::Update(k, c) | SOp::UpdateHashed(k, c) => (*k, *c),
+                SOp::Remove(k) | SOp::RemoveHashed(k) => (*k, 0),
+                _ => (0, 0),
+            };
+            let name = SKEYS[(k % SKEYS.len() as u64) as usize];
+            let owned = String::from(name);
+            let borrowed_form = (i as u64 + k) % 2 == 1;
+            // both forms hash alike
+            let h = s.hash_key(&owned);
+            if s.hash_key(name) != h {
+                return Some(sv(E7Prop::C20, i, "str-hash", format!("step {i}: hash_key({:?}) differs between the &str and the &String form", name)));
+            }
+            match op {
+                SOp::Inc(..) | SOp::IncHashed(..) => {
+                    if m.values().map(|x| *x as i128).sum::<i128>() + cst as i128 > i64::MAX as i128 / 2 || cst.checked_abs().map(|a| a > (1i64 << 41)).unwrap_or(true) {
+                        continue;
+                    }
+                    if borrowed_form {
+                        s.increment(name, cst);
+                    } else {
+                        s.increment(&owned, cst);
+                    }
+                    m.insert(h, cst);
+                }
+                SOp::Update(..) | SOp::UpdateHashed(..) => {
+                    if cst.checked_abs().map(|a| a > (1i64 << 41)).unwrap_or(true) {
+                        continue;
+                    }
+                    let r = if borrowed_form { s.update(name, cst) } else { s.update(&owned, cst) };
+                    let e = m.contains_key(&h);
+                    if e {
+                        m.insert(h, cst);
+                    }
+                    if r != e {
+                        return Some(sv(E7Prop::C20, i, "str-update", format!("step {i}: update({:?} as {}) returned {r}, key tracked: {e}; tracked {:?}", name, if borrowed_form { "&str" } else { "&String" }, m)));
+                    }
+                }
+                SOp::Remove(..) | SOp::RemoveHashed(..) => {
+                    let r = if borrowed_form { s.remove(name) } else { s.remove(&owned) };
+                    let e = m.remove(&h);
+                    if r != e {
+                        return Some(sv(E7Prop::C20, i, "str-remove", format!("step {i}: remove({:?} as {}) returned {:?}, recorded cost {:?}", name, if borrowed_form { "&str" } else { "&String" }, r, e)));
+                    }
+                }
+                SOp::Clear => {
+                    s.clear();
+                    m.clear();
+                }
+                _ => {}
+            }
+            let exact = s.get_max_cost() as i128 - m.values().map(|x| *x as i128).sum::<i128>();
+            if let Ok(want) = i64::try_from(exact) {
+                let got = s.room_left(0);
+                if got != want {
+                    return Some(sv(E7Prop::C20, i, "str-room-left", format!("step {i} {op:?} (String keys): room_left(0) = {got}, expected {want}; tracked {:?}", m)));
+                }
+            }
+        }
+        None
+    }));
+    match r {
+        Ok(v) => v,
+        Err(_) => {
+            let _ = take_last_panic();
+            None
+        }
+    }
 }
